@@ -64,7 +64,8 @@ def rule_hitratio(ctx):
             den = count_form(d.den)
             good = False
             why = "denominator %s is not a count" % tm.show(d.den, 3)
-            if den is not None and den[0] == "len":
+            if den is not None and (den[0] == "len" or (den[0] == "size" and name == "util.match_events")):
+                # .size of a validated 1-d event array is its length
                 base = den[1]
                 good = any(base is h for h in handed)
                 why = "denominator len(%s) %s one of the collections handed to %s" % (tm.show(base, 3), "is" if good else "is NOT", name)
@@ -363,7 +364,16 @@ def rule_constret(ctx):
     s = ctx.S.get("key.weighted_score")
     f = ctx.program.func("key.weighted_score")
     alllit = all(_literal_of(r.term)[0] for r in s.returns)
-    yield ob("C01.CONSTRET", f, "key.weighted_score:literals-only", alllit, "every return of the key score is a literal (range decided above)")
+    why = "every return of the key score is a literal (range decided above)"
+    if not alllit:
+        from .c04 import key_decision_table
+
+        tab = key_decision_table(ctx)
+        if tab is None:
+            raise AnalysisError("C01.CONSTRET", "key.weighted_score returns a computed value and its decision table cannot be evaluated")
+        alllit = all(0.0 <= v <= 1.0 for v in tab.values())
+        why = "the key score, evaluated on all %d key pairs, takes the values %s" % (len(tab), sorted(set(tab.values())))
+    yield ob("C01.CONSTRET", f, "key.weighted_score:literals-only", alllit, why)
 
 
 # ------------------------------------------------------------- WEIGHTEDMEAN / FFORM
